@@ -145,6 +145,24 @@ def run(env):
             items.append((c, c["ctx"], c["op"], c["args"], o))
         if c.get("_want") is not None and o is not c["_want"]:
             env.violation("verify_decryption_factors (%s) returned %s on %s" % (c["tag"], o, c["ctx"]), {"kind": "battery", "case": c, "out": o})
+    # ONE key holder (one Keymaker value) releasing factors for a sequence of ciphertexts in which some repeat: every factor is
+    # gr^sk for ITS ciphertext and every proof verifies against its own ciphertext
+    for ctx in ("B:%d" % P62, "M:%d" % P62):
+        P_, q_, g_ = pq(ctx); sk = r.randrange(2, q_); pk = str(pow(g_, sk, P_))
+        a_, b_, c_ = ([str(rnd_member(r, ctx)), str(rnd_member(r, ctx))] for _ in range(3))
+        seqc = [a_, b_, a_, c_, [a_[0], b_[1]], b_, a_]
+        got = env.harness([{"ctx": ctx, "op": "km_factor_seq", "args": [str(sk), seqc, "x:6b", script(r, 64 * len(seqc) * 4 + 512)], "tag": "keymaker-reuse"}])[0]
+        okseq = isinstance(got, list) and len(got) == len(seqc) and all(isinstance(x, list) for x in got)
+        if okseq:
+            okseq = all(x[0] == str(pow(int(c[1]), sk, P_)) for x, c in zip(got, seqc))
+        if not okseq:
+            env.violation("one Keymaker value releasing factors for a sequence of ciphertexts on %s: a factor is not gr^sk of its own ciphertext" % ctx,
+                          {"kind": "battery", "case": {"ctx": ctx, "op": "km_factor_seq", "args": [str(sk), seqc, "x:6b", "script"]}, "out": str(got)[:300]})
+            continue
+        vs = env.harness([{"ctx": ctx, "op": "verify_decryption", "args": [pk, x[0], c[0], c[1], x[1], "x:6b"], "tag": "keymaker-reuse-verify"} for x, c in zip(got, seqc)])
+        if vs != [True] * len(seqc):
+            env.violation("a proof released by a reused Keymaker value does not verify against its own ciphertext on %s: %s" % (ctx, vs),
+                          {"kind": "battery", "case": {"ctx": ctx, "op": "km_factor_seq", "args": [str(sk), seqc, "x:6b", "script"]}, "out": vs})
     fails = env.tie(items, "C07", shard=300)
     # ristretto
     L = 2 ** 252 + 27742317777372353535851937790883648493
